@@ -8,6 +8,10 @@ OBLIGATIONS = [
     Ob(name='C02.O3.memb.wait_gp', harness=H, entry='h_wait_gp', defines=('_LGPL_SOURCE',), mode='legacy', replace=('smp_mb_master',), unwind=4, cbmc_flags=NU,
        min_covers=2, checks=CK2, functions=('wait_gp', 'futex_async'),
        desc='wait_gp (urcu.c) with the futex call returning 0 (incl. spurious), EAGAIN, EINTR, ENOSYS or another errno, and the waker acting at any time: returns only after the word left -1; FUTEX_WAIT only with expected -1 right after loading -1; other errno fatal; registry lock dropped while sleeping and re-taken'),
+    Ob(name='C02.O3.call_rcu_wait', harness=H, entry='h_call_rcu_wait', defines=('_LGPL_SOURCE',), mode='legacy', replace=('smp_mb_master',), unwind=4, cbmc_flags=NU, min_covers=2, checks=CK2,
+       functions=('call_rcu_wait',), desc='call_rcu_wait (helper thread asleep on its futex): same contract as wait_gp - returns only after the word left -1, FUTEX_WAIT only on -1 right after loading it, tolerant of spurious 0 / EINTR / EAGAIN / ENOSYS, other errno fatal'),
+    Ob(name='C02.O3.completion_wait', harness=H, entry='h_completion_wait', defines=('_LGPL_SOURCE',), mode='legacy', replace=('smp_mb_master',), unwind=4, cbmc_flags=NU, min_covers=2, checks=CK2,
+       functions=('call_rcu_completion_wait',), desc='call_rcu_completion_wait (rcu_barrier asleep on the completion futex): same contract'),
     Ob(name='C02.O3.qsbr.wait_gp', harness=H, entry='h_wait_gp', defines=('_LGPL_SOURCE', 'WHICH_QSBR'), unwind=4, cbmc_flags=NU,
        min_covers=2, checks=CK2, functions=('wait_gp', 'futex_noasync'), desc='wait_gp (urcu-qsbr.c): same contract'),
     Ob(name='C02.O3.busy_wait', harness=H, entry='h_busy_wait', defines=('_LGPL_SOURCE',), unwind=5, cbmc_flags=NU, min_covers=1, checks=CK2,
